@@ -54,6 +54,7 @@ def s_global_is(eng, name, obj):
 
 def install_spec(eng):
     eng.spec_funcs["global_is"] = s_global_is
+    eng.spec_funcs["lists_post"] = s_lists_post
     eng.spec_funcs["BIL"] = s_BIL
     eng.spec_funcs["LIN"] = s_LIN
     eng.spec_funcs["forall1"] = forall_n(1)
@@ -79,11 +80,17 @@ def canonical_key(eng, slo, N, M, et, er):
 
 
 def sc_bilform_matrix(eng):
-    def build(eng):
+    def build(eng, default_trial=False):
         N, M = z3.Int("N"), z3.Int("M")
         et, er = elem_seq("ETEST", N), elem_seq("ETRIAL", M)
+        leaves = et
+        if default_trial:
+            # only the test list is passed (any list, not the mesh's leaf list): the trial list defaults to the SAME list
+            er, M = et, N
+            leaves = elem_seq("LEAVES", z3.Int("n_leaves"))
+        eng.ghost["want_lists"] = (et, er)
         mesh = Obj("MeshParametrized", {"__module__": "src.mesh", "gamma_space": Ref("Curve", z3.Int("curve")),
-                                        "leaf_elements": et})
+                                        "leaf_elements": leaves})
         cache = eng.choose(2, "cache_dir")
         slo = Obj("SingleLayerOperator", {"__module__": SL, "mesh": mesh,
                                           "cache_dir": None if cache == 0 else extio.StrT(z3.Const("cache_dir", extio.Str))},
@@ -112,8 +119,16 @@ def sc_bilform_matrix(eng):
                          z3.ForAll([pp, qq], z3.Implies(z3.And(0 <= pp, pp < N, 0 <= qq, qq < M),
                                                         to_real(arr.elem(pp, qq)) == BIL(er.elem(qq).term, et.elem(pp).term))))
             eng.ghost["on_save"] = on_save
-        return {"self": slo, "elems_test": et, "elems_trial": er, "use_mp": z3.Bool("use_mp")}
-    return [dict(label="", args=build)]
+        return {"self": slo, "elems_test": et, "elems_trial": None if default_trial else er, "use_mp": z3.Bool("use_mp")}
+    return [dict(label="", args=build), dict(label="trial-list-omitted", args=lambda e: build(e, True))]
+
+
+def s_lists_post(eng, result):
+    """the matrix in terms of the ARGUMENTS of the call (not of the local variables after the defaults were filled in)"""
+    et, er = eng.ghost["want_lists"]
+    p, q = z3.Ints("p!wl q!wl")
+    return z3.ForAll([p, q], z3.Implies(z3.And(0 <= p, p < to_z3(et.length), 0 <= q, q < to_z3(er.length)),
+                                        to_real(result.elem(p, q)) == BIL(er.elem(q).term, et.elem(p).term)))
 
 
 def bil_result(eng, env):
@@ -154,6 +169,7 @@ contracts.append(Contract(SL + ":SingleLayerOperator.bilform", prop="C04", resul
 contracts.append(Contract(
     SL + ":SingleLayerOperator.bilform_matrix", props=["C17", "C04"], setup=sc_bilform_matrix,
     ensures=[("entries-are-pairwise-bilform[rows=test,cols=trial]", MATPOST),
+             ("in terms of the call's arguments: an omitted trial list means the test list", "lists_post(result)"),
              ("volterra", "forall2(lambda p, q: implies(And(0 <= p, p < len(elems_test), 0 <= q, q < len(elems_trial), "
                           "elems_test[p].time_interval[1] <= elems_trial[q].time_interval[0]), result[p, q] == 0))")],
     loops={0: outer_loop(), 1: inner_loop(), 2: outer_loop(), 3: inner_loop(),
